@@ -24,19 +24,22 @@ class FilteredConfigParser(ObjectProxy):
     if exclude and include:
       raise ValueError("Both exclude and include arguments specified. Only one can be used at one time.")
 
+    # Note: the '_self_' prefix makes ObjectProxy store these attributes on the proxy itself
+    # rather than on the wrapped ConfigParser (where they would be shared by every
+    # FilteredConfigParser wrapping the same parser).
     if exclude:
-      self._species_list = exclude
-      self._exclude_flag = True
+      self._self_species_list = exclude
+      self._self_exclude_flag = True
     else:
-      self._species_list = include
-      self._exclude_flag = False
+      self._self_species_list = include
+      self._self_exclude_flag = False
     
   def _check_tuple(self, check_tuple):
     for v in check_tuple:
-      v_in = v in self._species_list
-      if self._exclude_flag and v_in:
+      v_in = v in self._self_species_list
+      if self._self_exclude_flag and v_in:
         return False
-      elif not self._exclude_flag and not v_in:
+      elif not self._self_exclude_flag and not v_in:
         return False
     return True
 
